@@ -226,6 +226,19 @@ def judge (prop : String) (j : Json) : R Verdict := do
       if expectedOutputs.length + nPubAll == atx.outputs.length then expectedOutputs
       else if keptUnderWrap.length + nPubAll == atx.outputs.length then keptUnderWrap
       else []
+    if prop == "C01" then
+      -- what the body spends, reads and pledges is what the template's blocks hold - every reference of every block,
+      -- whatever the UTxO behind it holds, and no other (as sets: the ledger's fields are sets)
+      let asSet (rs : List UtxoRef) : List TxIn := dedupAdj (sortBy txInLe (rs.map fun r => (r.txid, r.index)))
+      let readable (es : List Expr) : Bool := es.all fun e => match exprIntoUtxoRefs e with | .ok _ => true | _ => false
+      let ins := tx.inputs.map (·.utxos)
+      if readable ins && asSet (ins.flatMap refsOrNothing) != dedupAdj (sortBy txInLe atx.inputs) then
+        spec := spec ++ ["denotes:inputs"]
+      if readable tx.references && asSet (tx.references.flatMap refsOrNothing) != dedupAdj (sortBy txInLe atx.referenceInputs) then
+        spec := spec ++ ["denotes:reference-inputs"]
+      let cols := tx.collateral.filter fun e => !e.isNone
+      if readable cols && asSet (cols.flatMap refsOrNothing) != dedupAdj (sortBy txInLe atx.collateral) then
+        spec := spec ++ ["denotes:collateral"]
     if prop == "C02" then
       -- fee, validity
       if let some f := numOf tx.fees then
@@ -317,6 +330,17 @@ def judge (prop : String) (j : Json) : R Verdict := do
           if (tx.metadata.filter fun m' => numOf m'.key == some k).length == 1 then
             if !(atx.metadata.any fun kv => kv.1 = k && kv.2 == .int v) then spec := spec ++ ["exact:metadata"]
         | _, _ => pure ()
+      -- a position that holds one number was given something that denotes none (a value of no class, of several):
+      -- there is no quantity to be exact about, so there is no transaction
+      let scalars : List (String × Expr) :=
+        [("fee", tx.fees)] ++ (if since.isNone then [] else [("validity-start", since)]) ++
+        (if untl.isNone then [] else [("ttl", untl)]) ++
+        (wds.filterMap fun d => (adhocGet d "amount").map fun e => ("withdrawal", e)) ++
+        ((tx.adhoc.filter fun d => adhocName d == "treasury_donation").filterMap fun d =>
+          (adhocGet d "coin").map fun e => ("donation", e)) ++
+        (tx.metadata.map fun m => ("metadata-label", m.key))
+      for (what, e) in scalars do
+        if (numOf e).isNone then spec := spec ++ ["exact:" ++ what ++ ":not-a-number-accepted"]
     if prop == "C09" || prop == "C02" then
       if alignedOutputs.length ≤ atx.outputs.length then
         for (o, a) in alignedOutputs.zip atx.outputs do
@@ -399,6 +423,8 @@ def judge (prop : String) (j : Json) : R Verdict := do
       if atx.hasAuxDataHash != !atx.metadata.isEmpty then spec := spec ++ ["aux-data-hash-presence"]
       if !(← bool (← field ok "pallas_decodes")) then spec := spec ++ ["decodes"]
       if !(← bool (← field j "same_again")) then spec := spec ++ ["reproducible"]
+      -- a compiler that has compiled something else before, and was not reset, answers with the same bytes
+      if !(← bool (← field j "same_used")) then spec := spec ++ ["reproducible-on-a-used-compiler"]
       let hm := fieldD ok "hash_matches"
       if !(isNull hm) then
         if !(← bool hm) then spec := spec ++ ["hash-of-body"]
